@@ -16,7 +16,7 @@ KINDS = {
             "waiters_not_zero_at_idle", "leaked"},
     "C08": {"batch_too_big", "batch_commit_order", "commit_before_send_return", "batch_commit_twice",
             "resend_after_done", "added_not_committed_once"},
-    "C09": {"gave_up_early", "gave_up_unlimited", "onerror_twice", "failed_twice", "fail_without_dq",
+    "C09": {"payload_of_other_event", "pause_too_short", "gave_up_early", "gave_up_unlimited", "onerror_twice", "failed_twice", "fail_without_dq",
             "commit_of_dead_queued", "exhausted_not_dq_only", "exhausted_not_main_once",
             "commit_before_send_return"},
 }
@@ -25,7 +25,7 @@ KINDS = {
 def base(run, **kw):
     sc = dict(name="", run=run, single=False, cap=8, pool="std", workers=2, batch=2, retry=0, dq=False,
               dqworkers=1, dqbatch=1, flush_ms=15, timeout_ms=25, lines=[], steps=[], mode="random", seed=run,
-              fail_pct=0, max_fails=0, readers=1, jitter=True)
+              fail_pct=0, max_fails=0, readers=1, jitter=True, retention_us=0, mult10=12)
     sc.update(kw)
     return sc
 
@@ -51,19 +51,22 @@ def random_scenarios(ctx, n, family, start_run=1):
                       workers=rng.choice([1, 2, 3, 4]), batch=rng.choice([1, 2, 3]), single=rng.random() < 0.15,
                       lines=random_lines(rng, nev, rng.choice([1, 1, 2, 3]), rng.choice([["a"], ["a", "b"], ["a", "b", "c"]]),
                                          rng.choice([["P"], ["P", "D"], ["P", "D", "B"], ["P", "P", "D", "H", "C", "C"],
-                                                     ["P", "D", "R", "E"]])))
+                                                     ["P", "D", "R", "E"], ["P", "S", "D"], ["P", "S"]])))
         elif family == "retry":       # C09: failures, with/without dead queue
             retry = rng.choice([0, 1, 2])
             sc = base(run, cap=rng.choice([4, 16]), workers=rng.choice([1, 2, 3]), batch=rng.choice([1, 2, 3]),
                       retry=retry, dq=rng.random() < 0.5, dqworkers=rng.choice([1, 2]), dqbatch=rng.choice([1, 2, 3]),
                       fail_pct=rng.choice([30, 60, 90]), max_fails=rng.choice([1, 2, 3, 4, 6, 9]),
                       lines=random_lines(rng, nev, rng.choice([1, 2]), rng.choice([["a"], ["a", "b"]]),
-                                         rng.choice([["P"], ["P", "D"]])))
+                                         rng.choice([["P"], ["P", "D"], ["P", "S"]])))
+            if rng.random() < 0.4:     # pauses judged: several workers, long retry sequences, growing intervals that matter
+                sc.update(retry=rng.choice([3, 4, 5]), retention_us=500, mult10=20, workers=rng.choice([2, 3, 4]), batch=1,
+                          fail_pct=rng.choice([60, 85]), max_fails=rng.choice([5, 6, 9, 12]), dq=rng.random() < 0.3)
         elif family == "pool":        # C05: small capacities, both pools, refusals, several readers
             sc = base(run, cap=rng.choice([1, 1, 2, 3]), pool=rng.choice(["std", "low_memory"]),
                       workers=rng.choice([1, 2]), batch=rng.choice([1, 2]), single=rng.random() < 0.2,
                       lines=random_lines(rng, nev, rng.choice([1, 2, 3, 4]), rng.choice([["a"], ["a", "b"]]),
-                                         rng.choice([["P", "D"], ["P", "D", "R", "E"], ["P", "H", "C", "D"], ["P"]])))
+                                         rng.choice([["P", "D"], ["P", "D", "R", "E"], ["P", "H", "C", "D"], ["P"], ["P", "S", "D"]])))
         elif family == "batch":       # C08: worker counts / count limits / flush by timer
             sc = base(run, cap=32, workers=rng.choice([1, 2, 3, 4]), batch=rng.choice([1, 2, 3, 4, 5]),
                       flush_ms=rng.choice([5, 15, 40]),
@@ -222,7 +225,7 @@ def execute_and_validate(ctx, pid, scenarios, par=8):
         rec["scenarios"] = [s["name"] for s in scenarios][:20]
         ctx.classify([rec])
         return []
-    maxid = max(len(sc["lines"]) for sc in scenarios) + 1
+    maxid = max((20 + 2 * len(sc["lines"]) if any(l["cls"] == "S" for l in sc["lines"]) else len(sc["lines"])) for sc in scenarios) + 1
     viol, nlines = validate(ctx, trace, maxid=max(maxid, 8))
     ctx.traces_validated += stats["runs"]
     ctx.extra["trace_lines_validated"] = ctx.extra.get("trace_lines_validated", 0) + nlines
